@@ -113,9 +113,15 @@ func genLifeOps(r *rng) []lifeOp {
 	return ops
 }
 
-func runLife(seed, id int, fixed []lifeOp) lifeResult {
+func runLife(seed, id int, fixed []lifeOp) lifeResult { return runLifeM(seed, id, fixed, "") }
+
+// modeOverride: an option combination outside the rotation (blocking+limit: BlockingExecution AND WorkerLimit)
+func runLifeM(seed, id int, fixed []lifeOp, modeOverride string) lifeResult {
 	r := &rng{s: uint64(seed)*7919 + uint64(id)*104729 + 1}
 	mode := []string{"unbounded", "blocking", "pool"}[id%3]
+	if modeOverride != "" {
+		mode = modeOverride
+	}
 	jobs := []string{"idle", "running", "blocked", "reentrant"}[(id/3)%4]
 	ops := fixed
 	if ops == nil {
@@ -128,6 +134,8 @@ func runLife(seed, id int, fixed []lifeOp) lifeResult {
 		opts = append(opts, quartz.WithBlockingExecution())
 	case "pool":
 		opts = append(opts, quartz.WithWorkerLimit(2))
+	case "blocking+limit":
+		opts = append(opts, quartz.WithBlockingExecution(), quartz.WithWorkerLimit(2))
 	}
 	s, _ := quartz.NewStdScheduler(opts...)
 	var execStarts atomic.Int64
@@ -383,6 +391,16 @@ func cmdLife() {
 	}
 	for i := 0; i < n; i++ {
 		run(nil)
+	}
+	// both options at once (BlockingExecution wins; no pool is started): the same lifecycle obligations
+	for k, f := range lifeFixed {
+		if k%2 == 0 {
+			f := f
+			if (only < 0 && id%shards == shard) || only == id {
+				emit(runLifeM(seed, id, f, "blocking+limit"))
+			}
+			id++
+		}
 	}
 }
 
